@@ -4,11 +4,11 @@ SPEC = {
         "sources": ["c07.cpp", "c07_vec.cpp", "c07_inv.cpp", "c07_frustum.cpp", "c07_algo.cpp"],
         "lib": ["ImathMatrixAlgo.cpp"],
         "technique": "differential exhaustive enumeration: every checked/unchecked pair run on the same input over guard-threshold alphabets (both sides of every guard, to the ulp), integer lattices x power-of-two scalings, permuted-diagonal boundary matrices and exponent sweeps",
-        "level_text": "Both members of every checked/unchecked pair (Vec normalize family, Vec3(Vec4,InfException), Matrix22/33/44 inverse/invert/gjInverse/gjInvert with singExc, every Frustum ...Exc method and setExc, every ImathMatrixAlgo function with an exc flag) are executed on every input of stated finite alphabets and compared: bit-identical results when the checked form returns, the documented exception type (typeid) exactly when the unchecked form reports failure, guards firing only when the exact quotient reaches max/4, no exception on well-conditioned input. The alphabets put each guard's two operands on both sides of its threshold to the ulp in every slot of every hand-unrolled copy.",
+        "level_text": "Both members of every checked/unchecked pair (Vec normalize family, Vec3(Vec4,InfException), Matrix22/33/44 inverse/invert/gjInverse/gjInvert with singExc, every Frustum ...Exc method and setExc, every ImathMatrixAlgo function with an exc flag) are executed on every input of stated finite alphabets and compared: bit-identical results when the checked form returns, the documented exception type (typeid) exactly when the unchecked form reports failure, guards firing only when the exact quotient reaches max/4, no exception on well-conditioned input; for inversion also the must-fire direction (a non-zero determinant whose exact cofactor/determinant quotient reaches 2^(emax+1): the unchecked determinant-based form reports singular and the checked form throws), ZToDepth/ZToDepthExc on Z ranges wider than INT_MAX, and the flag-less spelling of every decomposition function against exc = true. The alphabets put each guard's two operands on both sides of its threshold to the ulp in every slot of every hand-unrolled copy.",
         "level_note": "Bounded: alphabets are boundary values, small integer lattices, graded power-of-two scalings and exponent sweeps, not all bit patterns; non-finite arguments are excluded; where numerator and denominator of a guard cannot be set independently from finite inputs (r+l against r-l, f+n against f-n) only the reachable side of the threshold is exercised.",
         "deadline": {"quick": 200, "thorough": 840},
         "rule": "complete enumeration of the stated alphabets on the real code, both members of each pair per input; non-trivial = by a predicate on the input the case is a zero vector, takes the scaled length path, "
-                "has w = 0 / subnormal w / a quotient in [max/4,max) / == max / > max, is an exactly singular or provably-zero-pivot matrix, has underflowing or overflowing cofactors, takes the affine fast path, "
+                "has w = 0 / subnormal w / a quotient in [max/4,max) / == max / > max, is an exactly singular or provably-zero-pivot matrix, has underflowing or overflowing cofactors, has a non-zero determinant with an exact quotient >= 2^(emax+1) / all quotients < max/4 with a tiny determinant, takes the affine fast path, "
                 "makes a Frustum quotient overflow, reach max/4 or be 0/0, is a decomposition input with a zero row / parallel rows / a reflection, or made the checked form throw "
                 "(classes counted separately; classes named '*.generic' excluded)",
         "assumptions": ["x86-64 long double (64-bit significand) for the exact quotients",
